@@ -185,3 +185,16 @@ Proof.
   destruct (Z.of_N (popcount hm) =? w); cbn [negb]; [|reflexivity].
   destruct (valid_rotation rot); reflexivity.
 Qed.
+
+(* ---- lowEntropyChunkMask: the mask of chunk i, or an error for an invalid rotation / a negative index ---- *)
+Theorem xl_lowEntropyChunkMask_eq_model (init : N) (rot ci : Z) :
+  (init < W64)%N -> - 2 ^ 31 <= rot < 2 ^ 31 -> - 2 ^ 63 <= ci < 2 ^ 63 ->
+  xl_protocol_lowEntropyChunkMask (Z.of_N init) rot ci =
+  match chunk_mask init rot ci with Ok v => (Z.of_N v, false) | Err _ => (0, true) end.
+Proof.
+  intros Hi Hr Hc. unfold xl_protocol_lowEntropyChunkMask, chunk_mask.
+  rewrite xl_isValidLowEntropyRotation_eq_model by exact Hr.
+  destruct (valid_rotation rot); cbn [negb]; [|reflexivity].
+  destruct (Z.ltb_spec ci 0) as [Hn|Hn]; [reflexivity|].
+  rewrite xl_rotateLowEntropyMask_eq_model by (assumption || lia). reflexivity.
+Qed.
